@@ -449,6 +449,14 @@ def rule_S1(prog, fixture=False):
                 for r in reads:
                     if any(a.id == w.id for a in r.ancestors()):
                         continue        # an argument of the re-allocating call itself: evaluated before it runs
+                    # a *fresh* start of the operand's storage is valid also after the re-allocation (rhs.begin(), rhs.data(),
+                    # rhs[k]): what must not be used any more is its extent - end(), size(), a range-for - and anything taken before
+                    par = r.parent
+                    while par is not None and par.k in ("ImplicitCastExpr", "ParenExpr", "MemberExpr"):
+                        par = par.parent
+                    if par is not None and par.k == "CXXMemberCallExpr" and par.call_object() is not None and par.call_object().strip_all().id == r.id \
+                            and ((par.callee or {}).get("qn") or "").rsplit("::", 1)[-1] in ("begin", "cbegin", "data"):
+                        continue
                     rl = f.block_of(r)
                     if rl is not None and ((rl[0] == wl[0] and rl[1] > wl[1]) or rl[0] in after):
                         bad = (w, r)
